@@ -54,6 +54,20 @@ def shard(desc):
             xs, meta = gen.sequence(rng, n=n, shape=sh, scale_range=tuple(desc.get('scale_range', (-28, 28))),
                                     max_offset_exp=desc.get('max_offset_exp', 12),
                                     need_spread=desc.get('need_spread', False))
+            if len(xs) >= 4 and rng.random() < 0.08:
+                # observations that hit the running mean exactly (delta == 0 with a non-zero spread): small dyadic data whose
+                # running mean is exact, every third value replaced by the mean so far
+                sc_ = 2.0 ** rng.randint(-20, 20)
+                xs = [float(rng.randint(-8, 8)) * sc_ for _ in xs]
+                tot = 0.0
+                for j in range(len(xs)):
+                    if j >= 2 and j % 3 == 2 and (tot / j) * j == tot:
+                        xs[j] = tot / j
+                    tot += xs[j]
+                if len(set(xs)) < 2:
+                    xs[0] += sc_
+                meta = dict(meta, shape='hits_running_mean')
+                res.count('sequences_hitting_running_mean')
             k = desc.get('norders', 3)
             orders = ('asgen',) + tuple(rng.sample(['asc', 'desc', 'abs', 'absdesc', 'shuffled'], k - 1))
             seqs.append((xs, meta, orders))
@@ -61,7 +75,7 @@ def shard(desc):
         for oname, ys in gen.order_variants(rng, xs, orders):
             oracle = sc.PrefixOracle(ys, desc['P'])
             for typ, only in desc['types']:
-                if mc.ORDER[typ] > desc['P']:
+                if mc.ORDER[typ] > desc['P'] or not common.has_type(desc['variant'], typ):
                     continue
                 m = dict(meta)
                 m['order'] = oname
@@ -70,7 +84,10 @@ def shard(desc):
                     weights = [rng.choice([0.0, 1.0, 10.0 ** rng.uniform(-6, 6)]) for _ in ys]
                 c, marks = sc.prefix_case('%s-%d' % (desc['name'], cid), typ, ys, meta=m,
                                           dense_limit=desc.get('dense_limit', 64), weights=weights,
-                                          final_only=desc.get('final_only', False), via_trait=rng.random() < 0.2)
+                                          final_only=desc.get('final_only', False), via_trait=rng.random() < 0.2,
+                                          noise=(rng if rng.random() < 0.15 else None), serde_ok=common.has_serde(desc['variant']))
+                if c.meta.get('noise'):
+                    res.count('cases_with_invisible_ops')
                 cid += 1
                 cases.append(c)
                 plan.append((c, marks, oracle, typ, only))
